@@ -1,7 +1,7 @@
 //@unit C10_lists
 //@props C10 C04
 //@safetyprops C14
-//@desc List and graph maintenance the sweep's termination and memory safety rest on. SetOwner - BOUNDED (any acyclic owner graph over 4 OutRecs, any pair outrec/new_owner, points present or not): afterwards outrec's owner is new_owner, only those two are re-linked, and the owner graph is still ACYCLIC (every `while (x->owner)` walk - GetRealOutRec, RecursiveCheckOwners, IsValidOwner - ends). DeleteFromAEL - list of 1..3 edges: an edge that is in the list is unlinked (both directions, head updated) and freed exactly once; an edge that is not (already deleted) is left alone. SwapPositionsInAEL - list of 2..4 edges, any adjacent pair: exactly those two change places, every link stays consistent in both directions, the head is updated.
+//@desc List and graph maintenance the sweep's termination and memory safety rest on. SetOwner - BOUNDED (any acyclic owner graph over 4 OutRecs, any pair outrec/new_owner, points present or not): afterwards outrec's owner is new_owner, only those two are re-linked, and the owner graph is still ACYCLIC (every `while (x->owner)` walk - GetRealOutRec, RecursiveCheckOwners, IsValidOwner - ends). DeleteFromAEL - list of 1..3 edges: an edge that is in the list is unlinked (both directions, head updated) and freed exactly once; an edge that is not (already deleted) is left alone. SwapPositionsInAEL - list of 2..4 edges, any adjacent pair: exactly those two change places, every link stays consistent in both directions, the head is updated. InsertRightEdge - list of 1..4 edges: the new edge sits immediately to the right of e, all links consistent.
 #include "vf.h"
 //@include engine_types.inc
 unsigned nondet_uint(void); bool nondet_bool(void);
@@ -81,6 +81,30 @@ void h_Swap(void)
   VF_CANARY();
 }
 #endif
+/* ---------- InsertRightEdge: the right bound of a local minimum goes immediately right of the left bound ---------- */
+#ifdef INSR
+Active g_a4[4]; Active g_new;
+//@extract file=CPP/Clipper2Lib/src/clipper.engine.cpp func=InsertRightEdge byptr=e,e2 ifdef=INSR
+//@sub /&\(\*e2\)/e2/ min=0
+//@sub /&\(\*e\)/e/ min=0
+//@end
+void h_InsR(void)
+{
+  unsigned n = nondet_uint(); __CPROVER_assume(n >= 1 && n <= 4);
+  for (unsigned i = 0; i < 4; ++i) { g_a4[i].prev_in_ael = (i > 0 && i < n) ? &g_a4[i - 1] : NULL; g_a4[i].next_in_ael = (i + 1 < n) ? &g_a4[i + 1] : NULL; }
+  unsigned k = nondet_uint(); __CPROVER_assume(k < n);
+  InsertRightEdge(&g_a4[k], &g_new);
+  Active* p = &g_a4[0]; Active* prev = NULL;
+  for (unsigned i = 0; i < 4; ++i) if (i < n) {
+    __CPROVER_assert(p == &g_a4[i] && p->prev_in_ael == prev, "old edges keep their order, links consistent both ways");
+    prev = p; p = p->next_in_ael;
+    if (i == k) { __CPROVER_assert(p == &g_new && p->prev_in_ael == prev, "the new edge sits immediately to the right of e"); prev = p; p = p->next_in_ael; }
+  }
+  __CPROVER_assert(p == NULL, "and the list ends there");
+  VF_CANARY();
+}
+#endif
 //@run name=SetOwner.bounded entry=h_SetOwner defs=OWNER unwind=7 flags=SAFETY solver=cadical timeout=300 bounded="owner graph over 4 OutRecs (any acyclic graph, any pair outrec/new_owner)"
 //@run name=DeleteFromAEL entry=h_Del defs=AEL unwind=5 flags=SAFETY solver=cadical timeout=120 bounded="active edge list of 1..3 edges (the function is loop-free; the bound is on the list the harness builds)"
 //@run name=SwapPositionsInAEL entry=h_Swap defs=SWAP unwind=6 flags=SAFETY solver=cadical timeout=120 bounded="active edge list of 2..4 edges, any adjacent pair (the function is loop-free)"
+//@run name=InsertRightEdge entry=h_InsR defs=INSR unwind=6 flags=SAFETY solver=cadical timeout=120 bounded="active edge list of 1..4 edges, any position (the function is loop-free)"
